@@ -109,9 +109,9 @@ func TestSpongeLevel(t *testing.T) {
 		Prop: "C20", Name: "sponge-level-" + buildVariant, N: 150,
 		Gen: func(t *rapid.T) hashCase {
 			return hashCase{Seed: rapid.Uint64().Draw(t, "seed"), Mode: rapid.IntRange(0, 3).Draw(t, "mode"),
-				N: h.OneOf(t, "n", 1, 2, 7, 63, 64, 64), Blocks: rapid.IntRange(1, 2).Draw(t, "blocks")}
+				N: h.OneOf(t, "n", 1, 2, 7, curl.MaxBatchSize-1, curl.MaxBatchSize, curl.MaxBatchSize), Blocks: rapid.IntRange(1, 2).Draw(t, "blocks")}
 		},
 		Check: checkHash, Require: []string{"sponge/mode2"},
-		Rule: "public-API part (no hook): 1..64 lanes absorbed and two blocks squeezed through the build-selected permutation = scalar Curl-P-81 per lane; run on the default and the purego build, so hashes are build-independent; non-trivial = >= 2 distinct lanes; distinct by case",
+		Rule: "public-API part (no hook): 1..W lanes (W = bits per machine word of the build target) absorbed and two blocks squeezed through the build-selected permutation = scalar Curl-P-81 per lane; run on the default build, the purego build and the GOARCH=386 build (32-bit words), so hashes are independent of build target and tag; non-trivial = >= 2 distinct lanes; distinct by case",
 	})
 }
